@@ -442,6 +442,8 @@ class Builtins:
             return Opaque(f"({getattr(a, 'tag', a)}{T.__name__}{getattr(b, 'tag', b)})")
         if isinstance(a, (str, SymStr)) and isinstance(b, (str, SymStr)) and T is ast.Add:
             return mkstr([a, b])
+        if isinstance(a, bytes) and isinstance(b, bytes) and T is ast.Add:
+            return a + b
         if isinstance(a, str) and isinstance(b, int) and T is ast.Mult:
             return a * b
         if isinstance(a, (str, SymStr)) and T is ast.Mod:
